@@ -270,4 +270,6 @@ def run(chk, tier):
     # the object-level Push* operations must hand the number over unconverted (exactness of PushU32(3_000_000_000) and the like)
     from . import c13
     c13.push_plumbing(chk, fx)
+    from . import shared
+    shared.value_truncate(chk, fx, "value-truncate")
     chk.undecided.append("numeric exactness inside NumCast::from / str::parse (trusted); extend_* numeric casts are documented as lossy and out of the property")
